@@ -1580,6 +1580,7 @@ fn c05(tier: Tier) -> i32 {
     }
     let m = Model::new(&p);
     let mut c = Case::new(case_name, p.clone());
+    c.probe.items.push_str(CTX_ITEMS);
     if case_name.ends_with("_provider") {
         c.probe.base_features = Some(vec!["ssr", "interpolate_display", "plurals"]);
         c.probe.extra_deps = "icu_plurals = { version = \"1.5\", features = [\"compiled_data\"] }\nicu_provider = \"1.5\"\n".to_string();
@@ -1620,6 +1621,36 @@ impl DataProvider<OrdinalV1Marker> for HarnessProvider {
         for ordinal in [false, true] {
             let mac = if ordinal { "leptos_i18n::td_plural_ordinal" } else { "leptos_i18n::td_plural" };
             let exp: Vec<Option<String>> = (0..=200).map(|n| Some(category_int(l, ordinal, n).suffix().to_string())).collect();
+            // the fallback spelled `other`, only some forms given (the rest falls to the fallback), and the
+            // context forms t_plural! / t_plural_ordinal! (a closure reading the context's locale)
+            c.add_count_loop(
+                "0u64..=200",
+                "n",
+                &format!("{{ let f = {mac}!({}, count = move || n, zero => \"zero\", one => \"one\", two => \"two\", few => \"few\", many => \"many\", other => \"other\", _ => \"never\"); f.to_string() }}", locale_variant(l)),
+                &format!("{mac} (other spelled) @{l}"),
+                exp.clone(),
+            );
+            let exp_partial: Vec<Option<String>> = (0..=200)
+                .map(|n| {
+                    let cat = category_int(l, ordinal, n);
+                    Some(if matches!(cat, Form::One | Form::Few) { cat.suffix().to_string() } else { "rest".to_string() })
+                })
+                .collect();
+            c.add_count_loop(
+                "0u64..=200",
+                "n",
+                &format!("{{ let f = {mac}!({}, count = move || n, few => \"few\", one => \"one\", _ => \"rest\"); f.to_string() }}", locale_variant(l)),
+                &format!("{mac} (two forms + fallback) @{l}"),
+                exp_partial,
+            );
+            let cmac = if ordinal { "leptos_i18n::t_plural_ordinal" } else { "leptos_i18n::t_plural" };
+            c.add_count_loop(
+                "0u64..=200",
+                "n",
+                &format!("{{ ctx().set_locale({}); let f = {cmac}!(ctx(), count = move || n, zero => \"zero\", one => \"one\", two => \"two\", few => \"few\", many => \"many\", _ => \"other\"); f().to_string() }}", locale_variant(l)),
+                &format!("{cmac} (context) @{l}"),
+                exp.clone(),
+            );
             c.add_count_loop(
                 "0u64..=200",
                 "n",
@@ -1660,7 +1691,7 @@ impl DataProvider<OrdinalV1Marker> for HarnessProvider {
     let (locales, masks) = (main_locales, all_masks);
     rep.sample(json!({"probe_stmt": "for n in 0u64..=200 { p(base + n as usize, td_string!(Locale::ru, p21c, count = n).to_string()); }", "records": n}));
     let mut cov = serde_json::Map::new();
-    cov.insert("rule".into(), json!(format!("locales {locales:?}; plural keys for form subsets {masks:?} (+ other), cardinal and ordinal; the generated `match category_for(count)` is executed for counts 0..=200 through td_string! (all), td! -> html (full-form keys, 0..=30), and td_plural!/td_plural_ordinal! (the category itself) and compared with ICU4X category_for called by the harness for the locale being rendered; two further probes render pt and pt-PT (same language, different CLDR rules at 0) in one process in either order; a fourth is built WITHOUT icu_compiled_data and takes the rules from a derived IcuDataProvider installed with set_icu_data_provider")));
+    cov.insert("rule".into(), json!(format!("locales {locales:?}; plural keys for form subsets {masks:?} (+ other), cardinal and ordinal; the generated `match category_for(count)` is executed for counts 0..=200 through td_string! (all), td! -> html (full-form keys, 0..=30), and td_plural!/td_plural_ordinal! (the category itself; `_` and `other` fallbacks, all or two forms given) and t_plural!/t_plural_ordinal! on a context and compared with ICU4X category_for called by the harness for the locale being rendered; two further probes render pt and pt-PT (same language, different CLDR rules at 0) in one process in either order; a fourth is built WITHOUT icu_compiled_data and takes the rules from a derived IcuDataProvider installed with set_icu_data_provider")));
     cov.insert("exhaustive".into(), json!(tier == Tier::Thorough));
     rep.finish(cov, &["ICU4X compiled CLDR data is the trusted base"])
 }
